@@ -2652,11 +2652,37 @@ func (m *Machine) detectQueueDuplicates(mutationType MutationType,
 	if m.disposing.Load() {
 		return false
 	}
-	// check if this mutation is already scheduled
-	found, _, _ := m.IsQueued(mutationType, states, true, true, 0, isCheck,
-		PositionAny)
+	m.queueMx.RLock()
+	defer m.queueMx.RUnlock()
 
-	return found
+	// the most recent related mutation decides
+	called := m.Index(states)
+	for i := len(m.queue) - 1; i >= 0; i-- {
+		mut := m.queue[i]
+		if mut.IsCheck != isCheck || mut.Type == mutationEval {
+			continue
+		}
+		same := mut.Type == mutationType && len(mut.Called) == len(called) &&
+			slicesEvery(mut.Called, called)
+
+		// this mutation is already scheduled and nothing undoes it later
+		if same && len(mut.Args) == 0 {
+			return true
+		}
+		if same {
+			continue
+		}
+
+		// a counter mutation scheduled later makes this one meaningful again
+		if mut.Type == MutationSet || mutationType == MutationSet {
+			return false
+		}
+		if mut.Type != mutationType && !slicesNone(mut.Called, called) {
+			return false
+		}
+	}
+
+	return false
 }
 
 // Transition returns the current transition, if any.
